@@ -6,7 +6,7 @@ import PsModel.Drv.C07
 ```
 C06 (next <tspecs> <now> <startup> <suntab> <cronnext> <utcoff>)   → next=<t|none> adj=<t|none> | raise   (the code as it is)
 C06 (next-pre <tspecs> <now> <startup> <suntab> <cronnext> <utcoff>)                                        (before fix c80f3bb)
-C06 (chain <tspecs> <startup> <n> <horizon> <su> <sd> <suntab> <cronnext> <utcoff>)
+C06 (chain legacy|new <targs|bare> <startup> <n> <horizon> <suntab> <cronnext> <utcoff>)       targs = (startup | shutdown | <tspec> …)
                                                                    → [startup] t1 t2 … [shutdown]: the runs of a trigger loop
                                                                      started at `startup` and removed at `horizon`
 C06 (dst legacy|new|new-pre <tspecs> <startup> <r0> <n> <rEnd> <zreal> <znaive> <cronlists>)
@@ -54,6 +54,18 @@ def tspec? : Sexp → Option (TSpec × Option (Int × Int × Int))
   | _ => none
 
 /-- `math.floor((elapsed µs / 10^6) / (num / den))` with IEEE doubles (den is a power of two, |num| < 2^53) -/
+def targ? : Sexp → Option (TArg × Option (TSpec × Option (Int × Int × Int)))
+  | .atom "startup" => some (.startup, none)
+  | .atom "shutdown" => some (.shutdown, none)
+  | x => do
+    let r ← tspec? x
+    pure (.spec r.1, some r)
+
+def showRun : Run → String
+  | .startup => "startup"
+  | .shutdown => "shutdown"
+  | .at t => toString t
+
 def fdivFloat (num den elapsed : Int) : Int :=
   let p : Float := Float.ofInt num / Float.ofInt den
   let ts : Float := Float.ofInt elapsed / 1000000.0
@@ -113,13 +125,19 @@ def handle (x : Sexp) : String :=
       | some r => s!"next={showOI r.next} adj={showOI r.adj}"
       | none => "raise"
     | _, _, _, _, _, _ => "err parse"
-  | .list [.atom "chain", specs, startup, cnt, hor, su, sd, sunTab, cn, uo] =>
-    match Sexp.listOf? tspec? specs, startup.int?, cnt.nat?, hor.int?, su.bool?, sd.bool?, Sexp.listOf? sunRow? sunTab,
-        Sexp.listOf? cronRow3? cn, Sexp.listOf? offRow? uo with
-    | some ss, some st, some k, some h, some su, some sd, some sun, some cnT, some uoT =>
-      let body := ((timeLoop TFlags.current (mkParams ss sun cnT uoT) (ss.map (·.1)) st (fun _ => 1) k st).filter (fun t => t ≤ h)).map toString
-      " ".intercalate ((if su then ["startup"] else []) ++ body ++ (if sd then ["shutdown"] else []))
-    | _, _, _, _, _, _, _, _, _ => "err parse"
+  | .list [.atom "chain", .atom sub, targs, startup, cnt, hor, sunTab, cn, uo] =>
+    let parsed : Option (Option (List (TArg × Option (TSpec × Option (Int × Int × Int))))) :=
+      match targs with
+      | .atom "bare" => some none
+      | x => (Sexp.listOf? targ? x).map some
+    match parsed, startup.int?, cnt.nat?, hor.int?, Sexp.listOf? sunRow? sunTab, Sexp.listOf? cronRow3? cn, Sexp.listOf? offRow? uo with
+    | some pa, some st, some k, some h, some sun, some cnT, some uoT =>
+      let args : Option (List TArg) := pa.map (fun l => l.map (·.1))
+      let ss := (pa.getD []).filterMap (·.2)
+      let cfg := if sub == "legacy" then Legacy.normalize args else New.normalize args
+      let runs := funcRuns TFlags.current (mkParams ss sun cnT uoT) cfg st (fun _ => 1) k
+      " ".intercalate ((runs.filter (fun r => match r with | .at t => decide (t ≤ h) | _ => true)).map showRun)
+    | _, _, _, _, _, _, _ => "err parse"
   | .list [.atom "dst", .atom sub, specs, startup, r0, cnt, rEnd, zr, zn, cl] =>
     match Sexp.listOf? tspec? specs, startup.int?, r0.int?, cnt.nat?, rEnd.int?, Sexp.listOf? stepRow? zr, Sexp.listOf? stepRow? zn,
         Sexp.listOf? cronList? cl with
